@@ -116,7 +116,8 @@ def site_desc(scn):
                 r['disallow'] = ['/priv/']
             robots[h] = r
     return dict(hosts={h: IPS[h] for h in hs}, urls=urls, robots=robots, refuse=list(scn.get('refuse', ())),
-                nodns=list(scn.get('nodns', ())), honour_range=bool(scn.get('honour_range')))
+                nodns=list(scn.get('nodns', ())), honour_range=bool(scn.get('honour_range')),
+                auth_all=bool(scn.get('auth_all')))
 
 
 def argv(scn, db, directory):
@@ -480,6 +481,11 @@ def c20_catalogue(quick):
     # a nofollow page written without the optional <html> tag, with prose that contains "var" / "function"
     bare = [U(1, links=[2, 3]), U(2, nofollow=1, bare=1, links=[4, dict(to=5, inline=1)]), U(3, bare=1, links=[6]), U(4), U(5), U(6)]
     out.append(scenario('robots-nofollow-page-without-html-tag', bare, dict(robots=1, pagereq=1), N=1, robots=rules))
+    # a site wholly behind HTTP authentication, its robots.txt included; the user gave the credentials
+    ab = scenario('robots-behind-authentication', [U(1, links=[2, 3]), U(2, disallowed=1), U(3)], dict(robots=1, auth=1), N=1,
+                  robots=rules, benign=0)
+    ab['auth_all'] = 1
+    out.append(ab)
     out.append(scenario('robots-missing', basic, dict(robots=1, pagereq=1), N=1, robots={'a.test': {'kind': 'missing'}}))
     out.append(scenario('robots-off', basic, dict(robots=0, pagereq=1), N=1, robots=rules))
     out.append(scenario('robots-error500', [U(1, links=[2]), U(2)], dict(robots=1, tries=2), N=1,
